@@ -118,6 +118,7 @@ type Net struct {
 	lat        *Hasher
 	fault      *Hasher
 	Fired      []FiredFault
+	down       chan struct{} // closed by Shutdown: every parked caller returns
 	inflight   atomic.Int64
 	lastSubmit atomic.Int64
 	// Describe renders the cluster layout for diagnostics.
@@ -150,10 +151,24 @@ func NewNet(s *Sim, b Backend) *Net {
 		mark:       map[int]string{},
 		markOrd:    map[int]int{},
 		tsoOrd:     map[int]int{},
+		down:       make(chan struct{}),
 		lat:        NewHasher(s.Seed, "latency"),
 		fault:      NewHasher(s.Seed, "fault"),
 	}
 }
+
+// Shutdown releases every caller still parked in the network or in a simulated PD
+// (end of run: the simulator loop no longer processes events).
+func (n *Net) Shutdown() {
+	select {
+	case <-n.down:
+	default:
+		close(n.down)
+	}
+}
+
+// Down is closed by Shutdown.
+func (n *Net) Down() <-chan struct{} { return n.down }
 
 // Quiet reports whether no RPC is in flight and none was submitted during the last d of simulated time.
 func (n *Net) Quiet(d time.Duration) bool {
@@ -556,6 +571,9 @@ func (c *Conn) SendRequest(ctx context.Context, addr string, req *tikvrpc.Reques
 	case <-cutCh:
 		rec.RetErr = ErrSimCut
 		rec.DoneSeq = n.Sim.Stamp()
+		return nil, ErrSimCut
+	case <-n.down:
+		rec.RetErr = ErrSimCut
 		return nil, ErrSimCut
 	}
 }
